@@ -541,7 +541,8 @@ class CorrelationFunction(DFunction, UnitsManaged):
             if other.cutoff_time > self.cutoff_time: 
                 self.cutoff_time = other.cutoff_time  
     
-            for p in other.params:
+            # other may be this very object: iterate over a copy of the list
+            for p in list(other.params):
                 self.params.append(p)
                 
             self._is_composed = True
